@@ -128,6 +128,9 @@ func H_custom() {
 	if asOpt {
 		app.Var(VarOpt{Name: "x xx", Value: val, EnvVar: "CE", SetByUser: &user, HideValue: true})
 		app.Spec = "[-x...]"
+		if vParamInt("group") == 1 {
+			app.Spec = "[OPTIONS]" // the same values through an option group
+		}
 		if vParamInt("withArg") == 1 {
 			// a positional argument that always converts follows the option values
 			app.String(StringArg{Name: "Y"})
